@@ -240,6 +240,66 @@ theorem bit_len (W : Nat) (m : TRepr) (hm : m.Canon W) :
     (m.value W ≠ 0 → 2 ^ (bitLenNat (m.value W) - 1) ≤ m.value W) :=
   ⟨TRepr.bitLen_spec W m hm, (bitLenNat_spec _).1, (bitLenNat_spec _).2⟩
 
+-- ================================================================== set / clear bit, counts, powers of two
+
+/-- `set_bit(n)`: bit `n` becomes 1, every other bit is unchanged; canonical -/
+theorem set_bit (W : Nat) (hW : 1 ≤ W) (m : TRepr) (n : Nat) (hm : m.Canon W) :
+    (∀ i, ((m.setBit W n).value W).testBit i = (decide (n = i) || (m.value W).testBit i)) ∧
+    (m.setBit W n).value W = m.value W ||| 2 ^ n ∧ (m.setBit W n).Canon W := by
+  have ⟨e, c⟩ := TRepr.setBit_spec W hW m n hm
+  refine ⟨fun i => ?_, e, c⟩
+  rw [e, Nat.testBit_or, Nat.testBit_two_pow, Bool.or_comm]
+
+/-- `clear_bit(n)`: bit `n` becomes 0, every other bit is unchanged; canonical -/
+theorem clear_bit (W : Nat) (hW : 1 ≤ W) (m : TRepr) (n : Nat) (hm : m.Canon W) :
+    (∀ i, ((m.clearBit W n).value W).testBit i = ((m.value W).testBit i && !decide (n = i))) ∧
+    (m.clearBit W n).Canon W := by
+  have ⟨e, c⟩ := TRepr.clearBit_spec W hW m n hm
+  refine ⟨fun i => ?_, c⟩
+  rw [e, testBit_natAndNot, Nat.testBit_two_pow]
+
+/-- `count_ones`: the number of one bits (`popNat`), for every length -/
+theorem count_ones (W : Nat) (m : TRepr) (hm : m.Canon W) : m.countOnes W = popNat (m.value W) :=
+  TRepr.countOnes_spec W m hm
+
+/-- `count_zeros`: `None` for 0, otherwise the zero bits below the leading one: `bit_len - count_ones` -/
+theorem count_zeros (W : Nat) (m : TRepr) (hm : m.Canon W) :
+    m.countZeros W = if m.value W = 0 then none
+      else some (bitLenNat (m.value W) - popNat (m.value W)) :=
+  TRepr.countZeros_spec W m hm
+
+/-- `is_power_of_two` holds exactly for `2^k` -/
+theorem is_power_of_two (W : Nat) (m : TRepr) (hm : m.Canon W) :
+    m.isPow2 W = true ↔ ∃ k, m.value W = 2 ^ k :=
+  TRepr.isPow2_spec W m hm
+
+/-- `next_power_of_two`: a power of two, `≥ x`, and the least such (in particular 1 for 0); canonical,
+    including the spill into a new top word -/
+theorem next_power_of_two (W : Nat) (hW : 1 ≤ W) (m : TRepr) (hm : m.Canon W) :
+    (∃ k, (m.nextPow2 W).value W = 2 ^ k) ∧ m.value W ≤ (m.nextPow2 W).value W ∧
+    (∀ j, m.value W ≤ 2 ^ j → (m.nextPow2 W).value W ≤ 2 ^ j) ∧ (m.nextPow2 W).Canon W := by
+  have ⟨e, c⟩ := TRepr.nextPow2_spec W hW m hm
+  have ⟨h1, h2, h3⟩ := np2_spec (m.value W)
+  rw [e]; exact ⟨h1, h2, h3, c⟩
+
+/-- `IBig::trailing_ones` of a negative number `-v`: `None` for −1 (all ones), otherwise the trailing
+    zeros of `v - 1` (since `-v = !(v-1)`), via `trailing_zeros_large_shifted_by_one`; no panic -/
+theorem trailing_ones_negative (W : Nat) (hW : 1 ≤ W) (m : TRepr) (hm : m.Canon W) (hz : m.value W ≠ 0) :
+    (m.value W = 1 → m.trailingOnesNeg W = .ok none) ∧
+    (2 ≤ m.value W → ∃ k, m.trailingOnesNeg W = .ok (some k) ∧ IsTz (m.value W - 1) k) :=
+  TRepr.trailingOnesNeg_spec W hW m hm hz
+
+/-- the specification functions the driver prints are the ones characterised above -/
+theorem driver_specs (n : Nat) :
+    (specIsPow2 n = true ↔ ∃ k, n = 2 ^ k) ∧ specNextPow2 n = np2 n ∧
+    (∀ k, specTz n = some k → IsTz n k) := by
+  refine ⟨specIsPow2_iff n, specNextPow2_eq n, fun k h => ?_⟩
+  unfold specTz at h
+  simp only at h
+  by_cases hI : IsTz n (Nat.log2 (n ^^^ (n - 1)))
+  · rw [if_pos hI] at h; cases h; exact hI
+  · rw [if_neg hI] at h; cases h
+
 -- non-vacuity: a negative 3-word heap operand and a 2-word inline operand are canonical, and the
 -- model computes (−2^130) & (−2^64 − 1) through the (Negative, Negative) arm
 example : SCanon 64 ⟨true, .large [0, 0, 4]⟩ ∧ SCanon 64 ⟨true, .small (2 ^ 64 + 1)⟩ ∧
